@@ -1,0 +1,12 @@
+// Copyright 2026 The Go MCP SDK Authors. All rights reserved.
+// Use of this source code is governed by an MIT-style
+// license that can be found in the LICENSE file.
+
+//go:build !verif
+
+package jsonrpc2
+
+// verifYield is a scheduling point used by the external verification harness
+// (build tag "verif"). Without the tag it is an empty function that the
+// compiler inlines away.
+func verifYield(*Connection, string, any) {}
